@@ -1310,6 +1310,13 @@ class Engine(object):
         callee = ins.callee
         args = [self.val(st, a, f) for a in ins.args]
         site = (f.name, ins.line, ins.res or id(ins))
+        if st.visits:
+            # a call executed again after a loop header was re-entered is another execution: its
+            # result is a different value (an iterator comparison in a loop test must be able to
+            # come out differently the second time)
+            it = tuple(sorted((h, n) for h, n in st.visits.items() if n))
+            if it:
+                site = site + (it,)
         if callee is None or not callee.startswith('@'):
             # indirect call
             ev = Ev('call', callee=None, args=args, ins=ins, fn=f, site=site, argtys=ins.argtys)
